@@ -96,6 +96,12 @@ void *verif_realloc(void *old, size_t n, const char *site)
 		return NULL;
 	if (old)
 		untrack(old);
+	if (old && n == 0) {
+		/* as the C library the code runs against does it: realloc(p, 0) releases p and hands back NULL - code that
+		 * takes that NULL for "could not shrink" keeps a released pointer */
+		free(old);
+		return NULL;
+	}
 	p = realloc(old, n ? n : 1);
 	if (p)
 		track(p);
